@@ -1,1 +1,104 @@
-/-! Property theorems for C04 (statements + proofs by reference to `Proof/`). Not built yet. -/
+import GraafVerif.Proof.BfsC04
+import GraafVerif.Proof.BfsDesc
+/-!
+# C04 — Breadth-first search yields exactly the reachable vertices, nearest first
+
+Only statements and proofs by reference.  `bfs`, `bfsDist`, `distances` are the models of
+`Bfs`, `BfsDist` (collected) and `BfsDist::distances()` in `Model/Bfs.lean`; they are generic in
+`Graph` (= `Order + OutNeighbors`) exactly as the Rust code is, so one theorem serves the five
+representations (that each representation's `out_neighbors` is the out-neighbour list of the
+abstract digraph is C02; the correspondence run exercises all of them).
+Hypotheses = the property's quantifier: a well-formed digraph (arcs join vertices of `0..order`)
+and distinct in-range sources.  `Res.ok` in a conclusion says the call does not panic.
+-/
+namespace GraafVerif.C04
+open GraafVerif GraafVerif.Bfs
+
+/-- The conclusions of C04 for one digraph and one source list.
+`inf` is `usize::MAX`; `g.n ≤ inf` says the order fits a `usize`. -/
+def Holds (g : Graph) (S : List Nat) : Prop :=
+    -- Bfs: each reachable vertex exactly once, no other vertex, non-decreasing hop distance
+    (∃ out, bfs g S = .ok out ∧ out.Nodup ∧ (∀ v, v ∈ out ↔ ReachFrom g S v) ∧
+      out.Pairwise (fun u v => ∀ du dv, IsHopDist g S u du → IsHopDist g S v dv → du ≤ dv)) ∧
+    -- BfsDist: the same vertices in the same order, each paired with its exact hop distance
+    (∃ out, bfsDist g S = .ok out ∧ bfs g S = .ok (out.map (·.1)) ∧ ∀ p ∈ out, IsHopDist g S p.1 p.2) ∧
+    -- distances(): the full hop-distance vector, usize::MAX exactly at the unreachable vertices
+    (∀ inf, g.n ≤ inf → ∃ d, distances g S inf = .ok d ∧ d.length = g.n ∧
+      (∀ v k, IsHopDist g S v k → d[v]? = some k) ∧
+      (∀ v, v < g.n → (d[v]? = some inf ↔ ¬ ReachFrom g S v)))
+
+/-- Full statement of C04: for every digraph and every list of distinct in-range sources. -/
+def Statement : Prop :=
+  ∀ (g : Graph) (S : List Nat), g.WF → (∀ s ∈ S, s < g.n) → S.Nodup → Holds g S
+
+/-- `Bfs`: every reachable vertex exactly once, nothing else, nearest first. -/
+theorem bfs_correct (g : Graph) (hg : g.WF) (S : List Nat) (hS : ∀ s ∈ S, s < g.n) (hnd : S.Nodup) :
+    ∃ out, bfs g S = .ok out ∧ BfsSpec g S out :=
+  bfs_spec g hg S hS hnd
+
+/-- `BfsDist`: additionally every item carries the exact hop distance (and levels are sorted,
+vertices and levels are `< order`). -/
+theorem bfsDist_correct (g : Graph) (hg : g.WF) (S : List Nat) (hS : ∀ s ∈ S, s < g.n) (hnd : S.Nodup) :
+    ∃ out, bfsDist g S = .ok out ∧ DistSpec g S out :=
+  bfsDist_spec g hg S hS hnd
+
+/-- `Bfs` is the vertex projection of `BfsDist` — for every input, panics included. -/
+theorem bfs_eq_map_fst (g : Graph) (S : List Nat) : bfs g S = (bfsDist g S).map (List.map (·.1)) :=
+  Bfs.bfs_eq_map_fst g S
+
+/-- `BfsDist::distances()`. -/
+theorem distances_correct (g : Graph) (hg : g.WF) (S : List Nat) (hS : ∀ s ∈ S, s < g.n) (hnd : S.Nodup)
+    (inf : Nat) (hinf : g.n ≤ inf) :
+    ∃ d, distances g S inf = .ok d ∧ DistancesSpec g S inf d :=
+  distances_spec g hg S hS hnd inf hinf
+
+/-- Fuel adequacy: the `while` loop of the model terminates within `order + 1` steps; every larger
+fuel gives the same item list (so the fuel in `Model/Bfs.lean` is not an assumption). -/
+theorem bfsDist_fuel_adequate (g : Graph) (hg : g.WF) (S : List Nat) (hS : ∀ s ∈ S, s < g.n) (hnd : S.Nodup)
+    (fuel : Nat) (hf : g.n < fuel) :
+    ∃ st, new g labDist S = .ok st ∧ run g labDist fuel st = bfsDist g S :=
+  bfsDist_fuel g hg S hS hnd fuel hf
+
+/-- The full statement. -/
+theorem c04 : Statement := by
+  intro g S hg hS hnd
+  obtain ⟨out, ho, hsp⟩ := bfsDist_spec g hg S hS hnd
+  obtain ⟨outb, hob, hb⟩ := bfs_spec g hg S hS hnd
+  refine ⟨⟨outb, hob, hb.nodup, hb.mem_iff, hb.ordered⟩, ⟨out, ho, ?_, hsp.exact⟩, ?_⟩
+  · rw [Bfs.bfs_eq_map_fst, ho]; rfl
+  · intro inf hinf
+    obtain ⟨d, hd, hds⟩ := distances_spec g hg S hS hnd inf hinf
+    exact ⟨d, hd, hds.len, hds.dist, hds.inf_iff⟩
+
+/-- The same for digraphs given the way the harness gives them to the real code: an order and
+an arc list over `0..n`.  `Graph.ofRows (rowsOfArcs n arcs)` is the graph the driver runs the
+model on (`GDesc.graph`); its arc relation is exactly the listed pairs. -/
+theorem c04_arcs (n : Nat) (arcs : List (Nat × Nat)) (harcs : ∀ a ∈ arcs, a.1 < n ∧ a.2 < n)
+    (S : List Nat) (hS : ∀ s ∈ S, s < n) (hnd : S.Nodup) :
+    let g := Graph.ofRows (rowsOfArcs n arcs)
+    g.n = n ∧ (∀ u v, g.A u v ↔ (u, v) ∈ arcs) ∧ Holds g S := by
+  obtain ⟨h1, h2, h3⟩ := ofArcRows_spec n arcs harcs
+  exact ⟨h1, h2, c04 _ S h3 (by rw [h1]; exact hS) hnd⟩
+
+/-! ### Non-vacuity: the digraph of the `BfsDist` doc example with sources `[3, 7]` meets every
+hypothesis, and the conclusions are about this concrete, non-trivial output. -/
+
+theorem g0_wf : g0.WF := by
+  intro u v h
+  unfold g0 Graph.out at *
+  simp only at h ⊢
+  split at h <;> simp at h <;> omega
+
+example : (∀ s ∈ [3, 7], s < g0.n) ∧ [3, 7].Nodup := by decide
+example : bfs g0 [3, 7] = .ok [3, 7, 0, 6, 1, 5, 2, 4] := by decide
+example : bfsDist g0 [3, 7] = .ok [(3,0),(7,0),(0,1),(6,1),(1,2),(5,2),(2,3),(4,3)] := by decide
+example : distances g0 [1] 18446744073709551615
+    = .ok [3, 0, 1, 2, 1, 2, 2, 3] := by decide
+/-- an unreachable vertex keeps `usize::MAX` -/
+example : distances g0 [6] 18446744073709551615
+    = .ok [18446744073709551615, 18446744073709551615, 18446744073709551615, 18446744073709551615,
+           18446744073709551615, 1, 0, 1] := by decide
+example : ∃ out, bfsDist g0 [3, 7] = .ok out ∧ DistSpec g0 [3, 7] out :=
+  bfsDist_correct g0 g0_wf [3, 7] (by decide) (by decide)
+
+end GraafVerif.C04
